@@ -249,7 +249,7 @@ def generate(rng, idx, tier):
             ops.append(['repr', rng.choice(['R', 'S'])])
         elif k == 'pr':
             ops.append(['pr', c, rng.choice([False, False, False, True, 'list2', 'tuple2', 'dictval', 'deep', 'commented',
-                                            'odictval', 'dequeel'])])
+                                            'odictval', 'dequeel', 'long'])])
         elif k == 'ir':
             if rng.random() < 0.05:
                 ops.append(['ir', c, [rng.random() < 0.5, False, True]])
@@ -331,6 +331,24 @@ def execute(spec):
             c = cls[op[1]]
             nested = op[2]
             exp = m.tag(c)
+            if nested == 'long':
+                # >= 40 elements mixing the class with every other class of the lattice
+                order = [c] + [cls[n] for n in sorted(cls)]
+                elems = [order[i % len(order)] for i in range(40)]
+                exp_long = '[' + ', '.join(m.tag(k) for k in elems) + ']'
+                try:
+                    got = pformat([k() for k in elems])
+                except Exception as e:
+                    trace.append(op + ['RAISED ' + repr(e)])
+                    return fail('print_raised', type(e).__name__, op=op)
+                for k in order:
+                    m.after_print(k)
+                trace.append(op + [got[:200]])
+                if registered:
+                    res['nontrivial'] = True
+                if _norm(got) != _norm(exp_long):
+                    return fail('wrong_printer', 'long_sequence', op=op, got=got[:600], expected=exp_long[:600])
+                continue
             try:
                 got = pformat(_nest(nested, c))
             except Exception as e:
